@@ -126,15 +126,15 @@ func (d *Diamond) uploadDescriptor() error {
 	return d.writeMetadata(dest, storage.NoOverWrite, buffer)
 }
 
-// basenameKeyFilter applies a filter on results from some iterator (e.g. the KeysPrefix store function).
+// basenameKeyFilter builds a filter on pages of keys returned by some iterator (e.g. the KeysPrefix store function).
 //
 // This is useful to filter out items located deeper in the metadata tree, but for which the simple separator rule
 // cannot be applied.
-func basenameKeyFilter(filter string) func([]string, string, error) ([]string, string, error) {
-	return func(keys []string, next string, err error) ([]string, string, error) {
-		if err != nil {
-			return keys, next, err
-		}
+//
+// The filter is handed over to fetchKeys rather than wrapped around the iterator: a page made only of
+// filtered out keys is not the end of the listing.
+func basenameKeyFilter(filter string) func([]string) []string {
+	return func(keys []string) []string {
 		filtered := make([]string, 0, len(keys))
 		for _, key := range keys {
 			if !strings.HasPrefix(path.Base(key), filter) {
@@ -142,6 +142,6 @@ func basenameKeyFilter(filter string) func([]string, string, error) ([]string, s
 			}
 			filtered = append(filtered, key)
 		}
-		return filtered, next, err
+		return filtered
 	}
 }
